@@ -167,8 +167,9 @@ def share_dependent(cfg):
     return res
 
 
-def config_dir(cfg, triple):
-    d = os.path.join(BUILD, "inc-%s-k%dd%dm%d" % (os.path.basename(cfg), triple[0], triple[1], triple[2]))
+def config_dir(cfg, triple, drop=()):
+    """config.h for one share triple; drop = HAVE_* probe results to leave undefined (the configuration a libc without that function would give)"""
+    d = os.path.join(BUILD, "inc-%s-k%dd%dm%d%s" % (os.path.basename(cfg), triple[0], triple[1], triple[2], "".join("-no" + x for x in sorted(drop))))
     if os.path.isfile(os.path.join(d, "ok")):
         return d
     os.makedirs(d, exist_ok=True)
@@ -176,6 +177,10 @@ def config_dir(cfg, triple):
     t = re.sub(r"#define ASCON_MASKED_KEY_SHARES \d+", "#define ASCON_MASKED_KEY_SHARES %d" % triple[0], t)
     t = re.sub(r"#define ASCON_MASKED_DATA_SHARES \d+", "#define ASCON_MASKED_DATA_SHARES %d" % triple[1], t)
     t = re.sub(r"#define ASCON_MASKED_MAX_SHARES \d+", "#define ASCON_MASKED_MAX_SHARES %d" % triple[2], t)
+    for x in drop:
+        t, n = re.subn(r"(?m)^#define %s\b.*$" % re.escape(x), "/* #undef %s */" % x, t)
+        if not n:
+            raise BuildError("config.h has no definition of %s to drop" % x)
     open(os.path.join(d, "config.h"), "w").write(t)
     shutil.copy(os.path.join(cfg, "version.h"), os.path.join(d, "version.h"))
     open(os.path.join(d, "ok"), "w").write("ok")
@@ -183,7 +188,7 @@ def config_dir(cfg, triple):
 
 
 def build_lib(backend="asm", triple=DEFAULT_TRIPLE, cc="gcc", opt="-O2", san=None, checker=False,
-              omit=(), extra=(), no_stl=False, cxx=True, tag=""):
+              omit=(), extra=(), no_stl=False, cxx=True, tag="", drop=()):
     """Returns dict(lib=path to libascon.a, inc=[-I flags], dir=..., cflags=[...]).
     Objects are cached individually; files that cannot depend on the share numbers are shared
     between share triples (compiled against the default triple's config.h)."""
@@ -203,11 +208,13 @@ def build_lib(backend="asm", triple=DEFAULT_TRIPLE, cc="gcc", opt="-O2", san=Non
     flags += sanflags
     th = tree_hash()
     cfgh = file_hash(os.path.join(cfg, "config.h.tmpl"))
+    if drop:
+        flags += ["-DVP_CONFIG_WITHOUT_" + "_".join(sorted(drop))]     # only to keep the object cache apart; no source tests it
     key = hashlib.sha256(json.dumps([th, backend, triple, cc, opt, san, checker, sorted(omit),
-                                     list(extra), no_stl, cxx, tag, cfgh]).encode()).hexdigest()[:16]
+                                     list(extra), no_stl, cxx, tag, cfgh, sorted(drop)]).encode()).hexdigest()[:16]
     d = os.path.join(BUILD, "lib-" + key)
     lib = os.path.join(d, "libascon.a")
-    cdir = config_dir(cfg, triple)
+    cdir = config_dir(cfg, triple, drop)
     inc = ["-I" + os.path.join(REPO, "src"), "-I" + os.path.join(REPO, "src", "ascon"), "-I" + cdir]
     res = dict(lib=lib, inc=inc, dir=d, cflags=flags, cc=cc, cxx=cxxc, sanflags=sanflags,
                desc="%s k%dd%dm%d %s %s%s%s" % (backend, triple[0], triple[1], triple[2], cc, opt,
@@ -217,7 +224,7 @@ def build_lib(backend="asm", triple=DEFAULT_TRIPLE, cc="gcc", opt="-O2", san=Non
     shutil.rmtree(d, ignore_errors=True)
     os.makedirs(d)
     dep = share_dependent(cfg)
-    ddir = config_dir(cfg, DEFAULT_TRIPLE)
+    ddir = config_dir(cfg, DEFAULT_TRIPLE, drop)
     objroot = os.path.join(BUILD, "obj-" + th)
     os.makedirs(objroot, exist_ok=True)
     jobs = []
